@@ -1,12 +1,14 @@
 (** Executable entry point of the C08 model for the correspondence check.
     case = (body ops); statements: (0) signal, (1) stored value, (2) on_cleanup, (3 ty v) provide,
     (4 ty) use, (5 body) child owner, (6 body) effect, (7 body) memo, (8 body) render effect,
-    (9 body) isomorphic effect, (10 body) watch, (11 body) immediate effect;
+    (9 body) isomorphic effect, (10 body) watch, (11 body) immediate effect, (12 kind) raw ArenaItem
+    of the harness' (type, storage) pair number kind;
     ops: (10 o) re-run, (11 o) cleanup, (12 o) drop handle, (13 e) notify effect, (14 m) notify memo,
     (15 m) read memo, (16 e) poll task, (17 picks) run until idle, (18 o n) allocate, (19 h) dispose
     handle, (20 o) pause, (21 o) resume, (22 o ty) use_context at o, (23 m) dispose memo handle,
     (24 e) dispose effect handle / drop render-effect handle, (26 i) notify immediate effect,
-    (27 i) drop immediate-effect handle. *)
+    (27 i) drop immediate-effect handle, (28 o n kind) allocate n raw arena items, (29 h) release a
+    handle the other way (ArenaItem: into_inner, i.e. Storage::take; others: dispose). *)
 From Coq Require Import List ZArith Bool Arith.
 From LV Require Import Base.Sexp Reactive.RxUtil Reactive.Owner.
 Import ListNotations.
@@ -32,6 +34,7 @@ Fixpoint dec_stmt (s : sexp) : stmt :=
       | 9%Z => SEffect body      (* Effect::new_isomorphic: same task loop *)
       | 10%Z => SEffect body     (* Effect::watch, the body being the dependency function *)
       | 11%Z => SImm body
+      | 12%Z => SNewItem (as_nat (nth 0 args (Lst [])))
       | _ => SUse 0
       end
   | _ => SUse 0
@@ -58,6 +61,8 @@ Definition dec_op (e : sexp) : option op :=
   | 24%Z => Some (DisposeEffect a)
   | 26%Z => Some (NotifyImm a)
   | 27%Z => Some (DropImm a)
+  | 28%Z => Some (AllocItems a (as_nat (nth_s 2 e)) (as_nat (nth_s 3 e)))
+  | 29%Z => Some (Dispose a)     (* Storage::take = arena.remove(node) *)
   | _ => None
   end.
 
